@@ -2408,17 +2408,22 @@ def _oracle_cases_for(c):
 
 
 MANIFEST = dict(
-    text=('Lean theorems over the reals: the power-law closed form is the integral of the profile (HasDerivAt + FTC, gamma = 1 and != 1), '
-          'box and gaussian closed forms equal the integral of the windowed profile values for every interval (gaussian for any erf '
-          'with derivative 2/sqrt(pi) exp(-x^2)), all closed forms are additive, cdf = partial / total integral, unit changes cancel, '
-          'flux = Phi0 x spatial x energy x time entrywise; on the MathFunction state machine: set_params / move equal construction '
-          'with the updated values, every history leaves an object equal to a fresh one built from its read-back parameters, '
-          'FactorizedFluxModel delegation, and a deep copy shares no heap cell with its original. The executable model is compared '
-          'with the real classes (values, integrals, cdf, windows, outer product, set_params/move/copy histories) on every run; '
-          'Gauss-Legendre, additivity, unit, update-vs-construct and copy oracles search the implementation for failing inputs.'),
-    note=('Cut-off, log-parabola and function-based profiles have no closed form in the code (generic quad): compared with the model\'s '
-          'Simpson sum only (1e-6). erf is a hypothesis (Mathlib has none). Float cancellation of the power-law closed form for '
-          '|gamma-1| < 1e-8 is a recorded finding. EpeakFunctionEnergyProfile is not covered.'),
-    design='DESIGN.md section 4 C13',
-    technique='Lean 4 proof (real analysis: HasDerivAt, interval integrals; induction over operation lists on a heap model) + '
-              'tolerance-based model/implementation correspondence with scipy erf passed in')
+    text=('73 Lean theorems over the reals about Model/Flux.lean: power-law closed form = integral of the profile (HasDerivAt + FTC, both '
+          'branches), box and gaussian closed forms = integral of the windowed profile values for every interval (gaussian for any erf with '
+          'derivative 2/sqrt(pi) exp(-x^2); for constructed objects and after any history without window hypothesis), additivity, cdf = partial / '
+          'total integral with total > 0, unit invariance with the unit as state (incl. the unit == own-unit branch), internal-flux-unit factors '
+          'compose, FactorizedFluxModel.__call__ as modelled (per-argument unit conversion, None -> factor 1) = Phi0 x spatial x energy x time; '
+          'MathFunction state machine: set_params / move = construction with the updated values, histories keep objects Fresh, updated = False '
+          'means unchanged, re-applying a dictionary is idempotent, error paths of set_params with their post-state (prefix assigned, not atomic), '
+          'delegation and get_param through a flux model, deep copy = same state + no shared cell for whole heap histories. The executable model '
+          'is compared with the real classes on every run (values, integrals, cdf, windows, constructor domain, unit factors, flux-model calls '
+          'with units / None, histories of set_params / move / copy incl. re-used dict objects, arbitrary Python values, shared profiles, '
+          'function-based profiles); branch counters list model branches not reached; implementation-side oracles (Gauss-Legendre, additivity, '
+          'units, product, update-vs-construct, copy, purity of array and dict arguments, argument forms, updated flag) search failing inputs.'),
+    note=('Cut-off, log-parabola, function-based and Epeak profiles have no closed form in the code (numerical get_integral): compared with the '
+          'model\'s Simpson sum / Gauss-Legendre only. erf is a hypothesis (IsErf, witness erfR). NaN / list-valued parameters, unit objects and '
+          '_cfg as state, Photospline profiles are outside the model. Open findings: power-law cancellation near gamma = 1, box with negative '
+          'width, stale frozen random variable, Epeak get_integral (numpy.trapz; fix ready).'),
+    design='DESIGN.md section 4 C13; design.d/C13.md',
+    technique='Lean 4 proof (real analysis: HasDerivAt, interval integrals; induction over operation lists on a heap model; Except-style '
+              'post-states) + tolerance-based model/implementation correspondence with scipy erf passed in')
